@@ -242,7 +242,9 @@ def run_bootstrap_like(ctx, routine, tap):
                boot_noise_ceil=bnc, models='+'.join(sorted(set(type(m).__name__[5:] for m in models))))
     wit = lambda **k: dict(routine=routine, data=w['data'], rd=w['rd'], pd=w['pd'], method=method, N=N, seed=seed,  # noqa
                            rdm_descriptor=rdesc, pattern_descriptor=pdesc, thetas=thetas, **k)
-    kw = dict(theta=thetas, method=method, N=N, boot_noise_ceil=bnc)
+    # the per-model parameters are handed over as a list or as another sequence (a tuple): one entry per model either way
+    kw = dict(theta=tuple(thetas) if len(models) >= 2 and rng.integers(3) == 0 else thetas, method=method, N=N,
+              boot_noise_ceil=bnc)
     if routine == 'eval_bootstrap':
         fn, kw2 = E.eval_bootstrap, dict(pattern_descriptor=pdesc, rdm_descriptor=rdesc)
     elif routine == 'eval_bootstrap_pattern':
